@@ -27,6 +27,7 @@ def main(argv=None):
     args = ap.parse_args(argv)
     logging.disable(logging.CRITICAL)
     warnings.simplefilter("ignore")
+    sys.unraisablehook = lambda *a: None
     repo = _setup_repo()
     seed = int(os.environ.get("VERIF_SEED", "0") or 0)
     from pvmc import explorer
